@@ -207,7 +207,10 @@ def k1_allowed(vals: List[Optional[str]], allowed: Optional[List[str]], missing:
     return got == want
 
 
-REX_MENU = [['^a+$'], ['^a$', '^b.$'], [], ['^$']]
+REX_MENU = [['^a+$'], ['^a$', '^b.$'], [], ['^$'],
+            # each expression is a pattern of its own: a numbered back-reference means the group of the expression it is
+            # written in, whatever precedes it in the list (both orders), and an inline flag stays in its expression
+            ['^(a)-$', r'^(.)\1$'], [r'^(.)\1$', '^(a)b$'], ['^(?i:B)-$', '^b+$']]
 
 
 def _ref_rex(k, s):
@@ -217,7 +220,14 @@ def _ref_rex(k, s):
         return s == 'a' or (len(s) == 2 and s[0] == 'b')
     if k == 2:
         return False
-    return s == ''
+    if k == 3:
+        return s == ''
+    dbl = len(s) == 2 and s[0] == s[1] and s[0] != '\n'
+    if k == 4:
+        return s == 'a-' or dbl
+    if k == 5:
+        return dbl or s == 'ab'
+    return s in ('B-', 'b-') or (len(s) >= 1 and all(c == 'b' for c in s))
 
 
 def k1_rex(vals: List[Optional[str]], k: int, null_value: bool, missing: bool, as_int_col: bool) -> bool:
@@ -244,6 +254,37 @@ def k1_rex(vals: List[Optional[str]], k: int, null_value: bool, missing: bool, a
         return got is False
     want = all(_ref_rex(k, x) for x in _nn(vals))
     return got == want
+
+
+GROUP_ALPHA = 'abB-'
+
+
+def k1_rex_groups(lens: List[int], chars: List[int]) -> bool:
+    """
+    pre: len(lens) <= 2 and all(-1 <= n <= 2 for n in lens) and len(chars) == 2 * len(lens)
+    pre: all(0 <= c < len(GROUP_ALPHA) for c in chars)
+    post: __return__
+    """
+    # CrossHair does not model back-references: the values are built from symbolic indexes into a 4-letter alphabet with a
+    # branch per character, so that every path works on concrete strings (length -1 = null)
+    k = P['k']
+    vals = []
+    for r, n in enumerate(lens):
+        if n == -1:
+            vals.append(None)
+            continue
+        t = ''
+        for j in range(2):
+            if j < n:
+                for q in range(len(GROUP_ALPHA)):
+                    if chars[2 * r + j] == q:
+                        t += GROUP_ALPHA[q]
+                        break
+        vals.append(t)
+    with symdf.patched(pc):
+        v = _verifier({'c': symdf.str_series(vals)})
+        got = bool(v.verify_rex_constraint('c', RexConstraint(list(REX_MENU[k]))))
+    return got == all(_ref_rex(k, x) for x in _nn(vals))
 
 
 def k1_type(vals: List[Optional[int]], t1: int, t2: int, strict: bool, null_value: bool,
@@ -446,8 +487,14 @@ def _obs():
         obs.append(Ob('K1', 'k1_rex', 'rex: every non-null value is matched (re.match, anchored expressions) by at '
                       'least one expression; a non-string column fails; absent column => failed',
                       'one column of <=%d rows of symbolic strings len<=2 or null; %d concrete expression lists '
-                      '(incl. the empty list)' % (rows, len(REX_MENU)), param={'rows': rows}, timeout=to, tier=tier,
+                      '(incl. the empty list)' % (rows, 4), param={'rows': rows}, timeout=to, tier=tier,
                       stubs=['symdf']))
+        if tier == 'quick':
+            for k in (4, 5, 6):
+                obs.append(Ob('K1', 'k1_rex_groups', 'rex: each expression of the list is a pattern of its own - a numbered '
+                              'back-reference means the group of the expression it is written in, an inline flag stays '
+                              'inside its expression', 'one column of <=2 rows of strings len<=2 over "abB-" or null; '
+                              'expression list %r' % (REX_MENU[k],), param={'k': k}, timeout=300, stubs=['symdf']))
         for kind, kname in enumerate(['int (float64 when nulls)', 'bool (object when nulls)', 'string',
                                       'fractional real']):
             obs.append(Ob('K1', 'k1_type', 'type: strict => the column type is in the allowed list; sloppy '
